@@ -76,10 +76,13 @@ def placeLimbo (h : History) (id : Nat) (e : Rec × Nat × Nat) : History :=
 /-- choose `n` pending records for a blob that grew: those cancelled while that blob was the target first -/
 def pickLimbo (pool : List (Rec × Nat × Nat)) (id n : Nat) : List (Rec × Nat × Nat) × List (Rec × Nat × Nat) :=
   let mine := pool.filter (fun e => e.2.1 == id)
-  let others := pool.filter (fun e => e.2.1 != id)
+  -- a pending deletion marker belongs to one particular blob; only a pending write may land in another blob
+  -- (the active blob may have been switched in between)
+  let others := pool.filter (fun e => e.2.1 != id && !e.1.del)
+  let fixed := pool.filter (fun e => e.2.1 != id && e.1.del)
   let fromMine := mine.take n
   let fromOthers := others.take (n - fromMine.length)
-  (fromMine ++ fromOthers, mine.drop n ++ others.drop (n - fromMine.length))
+  (fromMine ++ fromOthers, mine.drop n ++ others.drop (n - fromMine.length) ++ fixed)
 
 def showReadP : ReadResult PRec → String
   | .found p => "found " ++ showData p.r.data
@@ -114,13 +117,18 @@ def onStates (st : St) (obs : List BlobSt) : St × String :=
         -- records appeared that no acknowledged operation explains: only a cancelled operation may still land,
         -- and only until the first start after the cancellation
         let total := (grow.map (·.2)).foldl (· + ·) 0
-        if total ≤ st.limbo.length then
+        -- every grown blob must find enough pending records that can land in it
+        let fits (pool : List (Rec × Nat × Nat)) : Bool :=
+          (grow.foldl (fun (acc : Bool × List (Rec × Nat × Nat)) g =>
+              let (take, rest) := pickLimbo acc.2 g.1.id g.2
+              (acc.1 && take.length == g.2, rest)) (true, pool)).1
+        if total ≤ st.limbo.length && fits st.limbo then
           let (hist1, rest) := grow.foldl (fun (acc : History × List (Rec × Nat × Nat)) g =>
               let (take, rest) := pickLimbo acc.2 g.1.id g.2
               (take.foldl (fun h e => placeLimbo h g.1.id e) acc.1, rest)) (hist0, st.limbo)
           ({ st' with hist := hist1, limbo := if st.restarted then [] else rest,
                       expired := if st.restarted then st.expired ++ rest else st.expired }, "ok")
-        else if total ≤ st.limbo.length + st.expired.length then
+        else if total ≤ st.limbo.length + st.expired.length && fits (st.limbo ++ st.expired) then
           -- a cancelled operation shows up later than the first start after its cancellation
           let pool := st.limbo ++ st.expired
           let (hist1, rest) := grow.foldl (fun (acc : History × List (Rec × Nat × Nat)) g =>
